@@ -85,7 +85,7 @@ Proof.
     destruct (Z.ltb_spec (Z.of_nat i) 0) as [H0|H0]; [lia|].
     destruct (Z.ltb_spec (Z.of_nat (length (wx s))) (Z.of_nat j + 1)) as [H1|H1]; [lia|].
     rewrite (py_slice_unit_step (wx s)) by lia.
-    rewrite (py_slice_unit_step (wy s)) by (rewrite <- L; lia).
+    rewrite (py_slice_unit_step (wy s)) by (try rewrite <- L; lia).
     cbn [bind]. rewrite Nat2Z.id.
     replace (Z.to_nat (Z.of_nat j + 1)) with (j + 1)%nat by lia. reflexivity.
   - intros k Hk. split.
@@ -106,9 +106,9 @@ Proof.
   intros s L. unfold slice_by_value. cbn [bind]. unfold slice_by_index.
   change (0 <? 0)%Z with false. rewrite Z.ltb_irrefl. cbv iota.
   rewrite (py_slice_unit_step (wx s)) by lia.
-  rewrite (py_slice_unit_step (wy s)) by (rewrite <- L; lia).
+  rewrite (py_slice_unit_step (wy s)) by (try rewrite <- L; lia).
   cbn [bind]. change (Z.to_nat 0) with O. rewrite Nat2Z.id.
-  rewrite slice_whole. rewrite L at 2. rewrite slice_whole. reflexivity.
+  rewrite slice_whole. rewrite L. rewrite slice_whole. reflexivity.
 Qed.
 
 (** ====================================================================== *)
@@ -163,9 +163,10 @@ Proof.
   unfold step, fail, done in H.
   assert (HN : (2 <= Z.to_nat n)%nat) by lia.
   remember (Z.to_nat n) as N eqn:EN. clear EN.
+  set (g := linspace (headq (wx s)) (lastq (wx s)) N) in H.
+  destruct (interp_eval (wx s) (wy s) g a) as [y'|e]; [|discriminate].
+  injection H as <-. wsimpl. subst g.
   destruct N as [|[|m]]; [lia|lia|].
-  destruct (interp_eval (wx s) (wy s) _ a) as [y'|e]; [|discriminate].
-  injection H as <-. wsimpl.
   destruct (linspace_ends_steps (headq (wx s)) (lastq (wx s)) m) as (H1 & H2 & H3).
   split; [apply linspace_length|]. split; [exact H1|]. split; [exact H2|].
   replace (S (S m) - 1)%nat with (S m) by lia. exact H3.
